@@ -242,6 +242,8 @@ def gen_scan(rng):
         tot = sum(fields)
         lo_span = base >> tot << tot if tot < 64 else 0
         hi_span = min(M64, lo_span + (1 << tot) - 1)
+        if fmt in ("x86_64", "riscv64"):
+            lo_span = M64 - (1 << (tot - 1)) + 1       # ... and inside the canonical upper half
         a = max(lo_span, min(hi_span, a))
         lim = max(lo_span, min(hi_span, lim))
         off = off0
